@@ -32,8 +32,6 @@ Record sess : Type := mkS {
   s_pledge : Z;               (* pledgedSrcSizePlusOne (U64): 0 = ZSTD_CONTENTSIZE_UNKNOWN *)
   s_changed : bool;           (* cParamsChanged *)
   s_dk : Z;                   (* which test dictionary / prefix is attached (0 when none) *)
-  s_lid : bool;               (* the digested local dictionary carries its id: ZSTD_loadZstdDictionary reads it only when
-                                 fParams.noDictIDFlag was 0 at the time the dictionary was digested (first frame after the load) *)
   s_fed : Z;                  (* bytes consumed by the frame in progress *)
   s_applied : astore;         (* appliedParams; None = a cell this model does not determine (frames using a CDict) *)
   s_mt : option mtp;          (* mtctx->params once an mtctx exists *)
@@ -41,14 +39,14 @@ Record sess : Type := mkS {
   s_last : option finfo }.    (* last frame completed by this context *)
 
 Definition sess_new : sess :=
-  mkS 0 false 0 true 0 (fun q => Some (cparams_zero q)) None (mkFI (-1) 0 0) None.
+  mkS 0 false 0 0 (fun q => Some (cparams_zero q)) None (mkFI (-1) 0 0) None.
 
-Definition set_pledge (x : sess) (v : Z) : sess := mkS v (s_changed x) (s_dk x) (s_lid x) (s_fed x) (s_applied x) (s_mt x) (s_cur x) (s_last x).
-Definition set_changed (x : sess) (b : bool) : sess := mkS (s_pledge x) b (s_dk x) (s_lid x) (s_fed x) (s_applied x) (s_mt x) (s_cur x) (s_last x).
-Definition set_dk (x : sess) (k : Z) : sess := mkS (s_pledge x) (s_changed x) k (s_lid x) (s_fed x) (s_applied x) (s_mt x) (s_cur x) (s_last x).
-Definition set_fed (x : sess) (n : Z) : sess := mkS (s_pledge x) (s_changed x) (s_dk x) (s_lid x) n (s_applied x) (s_mt x) (s_cur x) (s_last x).
-Definition set_mt (x : sess) (m : option mtp) : sess := mkS (s_pledge x) (s_changed x) (s_dk x) (s_lid x) (s_fed x) (s_applied x) m (s_cur x) (s_last x).
-Definition set_last (x : sess) (f : option finfo) : sess := mkS (s_pledge x) (s_changed x) (s_dk x) (s_lid x) (s_fed x) (s_applied x) (s_mt x) (s_cur x) f.
+Definition set_pledge (x : sess) (v : Z) : sess := mkS v (s_changed x) (s_dk x) (s_fed x) (s_applied x) (s_mt x) (s_cur x) (s_last x).
+Definition set_changed (x : sess) (b : bool) : sess := mkS (s_pledge x) b (s_dk x) (s_fed x) (s_applied x) (s_mt x) (s_cur x) (s_last x).
+Definition set_dk (x : sess) (k : Z) : sess := mkS (s_pledge x) (s_changed x) k (s_fed x) (s_applied x) (s_mt x) (s_cur x) (s_last x).
+Definition set_fed (x : sess) (n : Z) : sess := mkS (s_pledge x) (s_changed x) (s_dk x) n (s_applied x) (s_mt x) (s_cur x) (s_last x).
+Definition set_mt (x : sess) (m : option mtp) : sess := mkS (s_pledge x) (s_changed x) (s_dk x) (s_fed x) (s_applied x) m (s_cur x) (s_last x).
+Definition set_last (x : sess) (f : option finfo) : sess := mkS (s_pledge x) (s_changed x) (s_dk x) (s_fed x) (s_applied x) (s_mt x) (s_cur x) f.
 
 (* ------------------------------------------------------------------ resolution of the requested parameters at frame start *)
 Definition store_cpar (s : cstore) : cpar :=
@@ -140,11 +138,10 @@ Definition frame_start (kf : bool) (c : cctx) (x : sess) (override : option Z) (
   let a := frame_resolve c pledge stable in
   let s := c_params c in
   let use := match c_dict c with CD_none => 0 | CD_prefix => 2 + s_dk x | _ => s_dk x end in
-  (* since fix 2f41a3c ZSTD_loadZstdDictionary always returns the stored ID (before, a dictionary digested while
-     dictIDFlag was 0 kept ID 0 for ever: negb (Z.eqb (s C_dictIDFlag) 0) here); the header writer gates per frame *)
-  let lid := match c_dict c with CD_local false => true | _ => s_lid x end in
-  let did := if dict_has_id (c_dict c) && negb (Z.eqb (s C_dictIDFlag) 0)
-                && (match c_dict c with CD_local _ => lid | _ => true end) then s_dk x else 0 in
+  (* since fix 2f41a3c ZSTD_loadZstdDictionary always returns the stored ID (before, a dictionary digested while dictIDFlag
+     was 0 kept ID 0 for ever; rounds 2 / 3a carried a field s_lid for that history dependence): the header writer alone
+     decides, frame by frame, from dictIDFlag *)
+  let did := if dict_has_id (c_dict c) && negb (Z.eqb (s C_dictIDFlag) 0) then s_dk x else 0 in
   let fcs := if negb (Z.eqb (s C_contentSizeFlag) 0) && negb (Z.eqb pledge 0) then pledge - 1 else -1 in
   let level := match c_dict c with CD_cdict => lvl_cdict | _ => s C_compressionLevel end in
   let dictSize := match c_dict c with CD_prefix => sz_prefix | _ => 0 end in
@@ -153,7 +150,7 @@ Definition frame_start (kf : bool) (c : cctx) (x : sess) (override : option Z) (
                         else s_mt x
             | None => s_mt x
             end in
-  mkS pledge (kf && s_changed x) (match c_dict c with CD_prefix | CD_none => 0 | _ => s_dk x end) lid fed a mt (mkFI fcs did use) (s_last x).
+  mkS pledge (kf && s_changed x) (match c_dict c with CD_prefix | CD_none => 0 | _ => s_dk x end) fed a mt (mkFI fcs did use) (s_last x).
 
 (* `if (cctx->cParamsChanged) ZSTDMT_updateCParams_whileCompressing(mtctx, &requestedParams)`: level and cParams are
    re-derived from the requested parameters for an unknown size and no dictionary; the window log is kept *)
@@ -170,7 +167,7 @@ Definition mt_update (c : cctx) (x : sess) : sess :=
   else x.
 
 Definition frame_done (x : sess) : sess :=
-  mkS 0 (s_changed x) (s_dk x) (s_lid x) 0 (s_applied x) (s_mt x) (s_cur x) (Some (s_cur x)).
+  mkS 0 (s_changed x) (s_dk x) 0 (s_applied x) (s_mt x) (s_cur x) (Some (s_cur x)).
 
 (* header line of a frame completed now: checksum, content size present, dictID present, magicless *)
 Definition done_hdr (c : cctx) (f : finfo) : list Z :=
@@ -225,7 +222,7 @@ Definition sess_after (leak eager kf : bool) (x : sess) (c c' : cctx) (r : resul
   | OCFrame _ => frame_done (frame_start kf c x (Some sz_oneshot) true sz_oneshot)
   | OCFail _ => frame_start kf c x (Some sz_oneshot) true sz_oneshot
   | OCSimple _ =>
-      mkS (if leak then sz_oneshot + 1 else 0) (s_changed x) (s_dk x) (s_lid x) 0 simple_applied (s_mt x) (s_cur x)
+      mkS (if leak then sz_oneshot + 1 else 0) (s_changed x) (s_dk x) 0 simple_applied (s_mt x) (s_cur x)
           (Some (mkFI sz_oneshot 0 0))
   | OCLoad _ k | OCRefCDict _ k | OCRefPrefix _ k => dk_after c' r k x
   | _ => x
